@@ -628,6 +628,10 @@ func (d *badgerNodeDB) Finalize(roots []node.Root) error { // nolint: gocyclo
 	// Go through all roots and prune them based on whether they are finalized or not.
 	maybeLoneNodes := make(map[hash.Hash]bool)
 	notLoneNodes := make(map[hash.Hash]bool)
+	// Nodes which were (re-)inserted by non-finalized roots. These may only be removed in case they
+	// did not already exist before this version as otherwise they can still be referenced by a
+	// finalized root which did not touch them.
+	discardedNodes := make(map[hash.Hash]bool)
 
 	for rootHash := range rootsMeta.Roots {
 		// TODO: Consider colocating updated nodes with the root metadata.
@@ -663,7 +667,7 @@ func (d *badgerNodeDB) Finalize(roots []node.Root) error { // nolint: gocyclo
 			// roots added in the same version.
 			for _, n := range updatedNodes {
 				if !n.Removed {
-					maybeLoneNodes[n.Hash] = true
+					discardedNodes[n.Hash] = true
 				}
 			}
 
@@ -692,6 +696,31 @@ func (d *badgerNodeDB) Finalize(roots []node.Root) error { // nolint: gocyclo
 		// Set of updated nodes no longer needed after finalization.
 		if err = tx.Delete(rootUpdatedNodesKey); err != nil {
 			return err
+		}
+	}
+
+	// Nodes inserted only by non-finalized roots are lone unless they already existed before this
+	// version (e.g. a discarded root removed and re-inserted an unchanged node).
+	if len(discardedNodes) > 0 && version > 0 {
+		prevTx := d.db.NewTransactionAt(versionToTs(version-1), false)
+		defer prevTx.Discard()
+
+		for h := range discardedNodes {
+			if maybeLoneNodes[h] || notLoneNodes[h] {
+				continue
+			}
+			switch _, err := prevTx.Get(nodeKeyFmt.Encode(&h)); err {
+			case nil:
+				// Existed before this version, keep.
+			case badger.ErrKeyNotFound:
+				maybeLoneNodes[h] = true
+			default:
+				return err
+			}
+		}
+	} else {
+		for h := range discardedNodes {
+			maybeLoneNodes[h] = true
 		}
 	}
 
